@@ -76,8 +76,11 @@ def transform_records(ck):
     for L in (2, 3):
         for _ in range(8 if ck.quick else 60):
             chains.append([rng.choice(KINDS) for _ in range(L)])
+    # long chains of cheap steps: the numbering must keep counting past 9, 10, 11, ...
+    cheap = [("flip", 1, 0), ("shuffle", 1, 0), ("or", 1, 0), ("xor", 1, 0), ("exact", 1, 1)]
+    long_chains = [[("flip", 1, 0)] * 12, [rng.choice(cheap) for _ in range(14)], [rng.choice(cheap) for _ in range(23)]]
     for bname, F0 in base_formulas(ck):
-        for chain in chains:
+        for chain in chains + (long_chains if bname in ("php32", "op3-pre2") else []):
             F = copy.deepcopy(F0)
             for depth, (kind, k, C) in enumerate(chain):
                 if F.number_of_variables() > 60 or len(F) > 400 or max([len(c) for c in F.clauses()] or [0]) > 5:
@@ -168,6 +171,43 @@ def arg_records(ck):
             ("subsetcard", B, lambda: cnfgen.SubsetCardinalityFormula(B, formula_class=cls)),
         ]:
             one(name, gsnap(Gx), fn)
+    # networkx graphs as arguments (labels as a reader would deliver them: digit strings; ints; mixed)
+    import networkx as nx
+
+    def nxsnap(X):
+        return lambda: {"nodes": [repr(x) for x in X.nodes()], "edges": [[repr(a), repr(b)] for a, b in X.edges()],
+                        "data": [repr(sorted(d.items())) for _, d in X.nodes(data=True)], "name": repr(getattr(X, "name", ""))}
+
+    def nxgraph(labels, directed=False, bip=False):
+        X = nx.DiGraph() if directed else nx.Graph()
+        if bip:
+            for i, l in enumerate(labels):
+                X.add_node(l, bipartite=0 if i < len(labels) // 2 else 1)
+            half = len(labels) // 2
+            for a in labels[:half]:
+                for b in labels[half:]:
+                    if (labels.index(a) + labels.index(b)) % 2 == 0:
+                        X.add_edge(a, b)
+        else:
+            X.add_nodes_from(labels)
+            for i in range(len(labels) - 1):
+                X.add_edge(labels[i], labels[i + 1])
+            X.add_edge(labels[0], labels[-2])
+        return X
+    strs = [str(i) for i in range(1, 13)]
+    for lname, labels in (("digit-strings", strs), ("ints", list(range(1, 13))), ("shuffled-strings", strs[6:] + strs[:6]),
+                          ("words", ["a", "b", "c", "d", "e", "f"])):
+        X = nxgraph(labels)
+        for name, fn in [("tseitin", lambda X=X: cnfgen.TseitinFormula(X)), ("kcolor", lambda X=X: cnfgen.GraphColoringFormula(X, 3)),
+                         ("kclique", lambda X=X: cnfgen.CliqueFormula(X, 3)), ("gop", lambda X=X: cnfgen.GraphOrderingPrinciple(X)),
+                         ("domset", lambda X=X: cnfgen.DominatingSet(X, 2)), ("matching", lambda X=X: cnfgen.PerfectMatchingPrinciple(X))]:
+            one("nx-%s-%s" % (lname, name), nxsnap(X), fn)
+        XD = nxgraph(labels, directed=True)
+        one("nx-%s-peb" % lname, nxsnap(XD), lambda XD=XD: cnfgen.PebblingFormula(XD))
+        one("nx-%s-stone" % lname, nxsnap(XD), lambda XD=XD: cnfgen.StoneFormula(XD, 2))
+        XB = nxgraph(labels, bip=True)
+        one("nx-%s-gphp" % lname, nxsnap(XB), lambda XB=XB: cnfgen.GraphPigeonholePrinciple(XB))
+        one("nx-%s-subsetcard" % lname, nxsnap(XB), lambda XB=XB: cnfgen.SubsetCardinalityFormula(XB))
     Bs = gen.mk_bipartite(4, 2, [[1, 1], [2, 2], [3, 1], [4, 2]])
     one("sstone-B", gsnap(Bs), lambda: cnfgen.SparseStoneFormula(D, Bs))
     F = cnfgen.PigeonholePrinciple(2, 2)
